@@ -720,3 +720,28 @@ def conditions_on_path_to(fv, sink_block):
             if fv.must_pass(sink_block, {(bi, tg)}) and sink_block in fv.live_blocks():
                 out.append((bi, show(atom), fv.b.term(bi).line))
     return out
+
+
+def known_empty_edges(fv, coll):
+    """switch edges on which the collection rendered as `coll` is known to be empty, however that is spelled:
+    `coll.is_empty()`, `coll.len() == 0`, `!(coll.len() > 0)`, or the absence of a first / last element
+    (`coll.front().is_none()`, `first()`, `back()`, `last()`, `get(0)`, `iter().next()`)"""
+    import re
+    want = parse_atom(f"len({coll}) == 0")
+    pat = re.compile(r"::(front|first|back|last|peek)\(" + re.escape(coll) + r"\)$|::get\(" + re.escape(coll) + r", 0\)$|::next\(.*::iter\(" + re.escape(coll) + r"\)\)$")
+    out = set()
+    for sb in sorted(fv.live_blocks()):
+        if fv.b.term(sb).kind != "switch":
+            continue
+        for tg, at in edge_atoms(fv, sb):
+            if at is None:
+                continue
+            try:
+                if entails(at, want):
+                    out.add((sb, tg))
+                    continue
+            except Exception:
+                pass
+            if at[0] == "variant" and at[2] == 0 and isinstance(at[1], tuple) and isinstance(at[1][0], str) and pat.search(at[1][0]):
+                out.add((sb, tg))      # Option::None of "the first element": there is none
+    return out
